@@ -164,12 +164,23 @@ def run (op : String) (a : Json) : Option (Except String Json) :=
   | "gen.sort_types" => some do
       let ts ← getStrList a "types"
       pure <| ok (jObj [("sorted", jList jStr (sortTypes ts)),
-                        ("prio", jList jNat ((sortTypes ts).map typePriority))])
+                        ("prio", jList jNat ((sortTypes ts).map typeKey))])
   | "gen.seqnum" => some do
+      -- the base class holds the given `restrictions.sequence` values as they are;
+      -- `process(target)` renumbers it first, then the target
       let attrs ← (← getArr a "attrs").mapM seqAttr
       let base ← (← getArr a "base").mapM asOptInt
-      let out := seqOutput (sequencePipeline base attrs)
+      let baseClass : List SeqAttr := base.map (fun s => { sequence := s })
+      let prepared := resetSequences (calculatePaths attrs)
+      let out := match renumberChainFrom [] (if base.isEmpty then [prepared] else [baseClass, prepared]) with
+        | [t] => seqOutput t
+        | [_, t] => seqOutput t
+        | _ => []
       pure <| ok (jList (fun r => Json.arr #[jInt r.1, jInt r.2.1, jOpt jInt r.2.2.1, jOpt jNat r.2.2.2]) out)
+  | "gen.seqchain" => some do
+      let chain ← (← getArr a "chain").mapM (fun c => do (← asArr c).mapM seqAttr)
+      let out := (sequencePipelineChain chain).map seqOutput
+      pure <| ok (jList (jList (fun r => Json.arr #[jInt r.1, jInt r.2.1, jOpt jInt r.2.2.1, jOpt jNat r.2.2.2])) out)
   | "gen.process_order" => some do
       let us ← strPairs (a.getObjValD "uris")
       let classify : Str → ResType := fun u => ((us.find? (·.1 == u)).map (fun p => resType p.2)).getD .unknown
